@@ -281,8 +281,10 @@ def run():
 
     validate_classes(ck, R)
 
-    # (a) corpus
+    # (a) corpus, and the directed family "unusual character at either end of a source": every corpus string with a
+    #     BOM / NBSP / ZWSP / CR / VT / FF / NEL / LS / ideographic space put in front of it or after it
     R.stream("corpus", L.CORPUS)
+    R.stream("corpus-edge-chars", [e + s for e in L.EDGE_CHARS for s in L.CORPUS] + [s + e for e in L.EDGE_CHARS for s in L.CORPUS])
     # (b) exhaustive over the lexical alphabet: all strings of length <= 3; in the thorough tier also all of length 4
     #     when the measured rate allows it within ~15 minutes (otherwise a seeded sample of that length, recorded)
     import itertools
